@@ -324,19 +324,30 @@ def run(tier, replay=None):
     # raised) reports every line >= 1; anything else is a violation of every_error_has_line
     if line0:
         comp = []
+        SUFFIXES = [b"\n}", b"*/\n}", b"\"\n}", b"/\n}"]   # the 2nd..4th first close an unterminated comment / string / regexp that would swallow the extra token
         for cid, l in line0:
+            m0 = re.search(r" l0=(\d+) l0eof=(\d+) ", l)
+            if m0 and m0.group(1) == m0.group(2):
+                continue                                     # decided by the message, no companion needed
             t = byid[cid].split(" ")
-            src = bytes.fromhex(t[2].replace("-", "")) + b"\n}"
-            comp.append(" ".join(["c" + cid, t[1], src.hex()] + t[3:]))
-        cout, crc, cerr = core.run_parallel([b["h_compile"], "20"], comp, timeout=3000)
-        cres = {l.split(" ", 1)[0][1:]: l for l in cout}
+            for k, suf in enumerate(SUFFIXES):
+                src = bytes.fromhex(t[2].replace("-", "")) + suf
+                comp.append(" ".join(["c%d_%s" % (k, cid), t[1], src.hex()] + t[3:]))
+        cout, crc, cerr = core.run_parallel([b["h_compile"], "20"], comp, timeout=3000) if comp else ([], 0, "")
+        cres = {}
+        for l2 in cout:
+            key = l2.split(" ", 1)[0].split("_", 1)[1]
+            if " ok " in l2[:24] and " lineok=1 " in l2:
+                cres[key] = l2
+            else:
+                cres.setdefault(key, l2)
         kf = [f for f in known if f["signature"].get("level") == "protocol" and f["signature"].get("line") == 0]
         nk = 0
         for cid, l in line0:
             c = cres.get(cid, "")
             eof_only = re.search(r" l0=(\d+) l0eof=(\d+) ", l)
             # bison names its look-ahead in the message: "unexpected end of file" = the error was raised on the EOF token
-            if kf and ((eof_only and eof_only.group(1) == eof_only.group(2)) or (" ok " in c[:14] and " lineok=1 " in c)):
+            if kf and ((eof_only and eof_only.group(1) == eof_only.group(2)) or (" ok " in c[:24] and " lineok=1 " in c)):
                 nk += 1
             elif nprob < 10:
                 nprob += 1
